@@ -152,6 +152,26 @@ TABLE = {
              "parameter samples from their own range or table (table first, both documented shapes accepted).",
         note="'empty entry' read as None / {} / absent; tables disjoint from ranges so the source of a sample is unambiguous",
         ref="DESIGN.md §4 C15"),
+    "C16": dict(
+        technique="trace specification checker: RAR counter automaton over directly driven trigger_rar histories and hook events of end-to-end runs",
+        level="exploration",
+        text="Schedules (start 0..4, period 1..4, initial and total counts for time and space equal or not, capacity reached "
+             "after 0..3 steps or never, selected 1..4) are driven for 14 iterations both by calling the real init_rar / "
+             "trigger_rar like solve does (reading the mask and step counter after every call, with batch draws in "
+             "between) and end to end through jinns.solve with the guarded hook; step iterations, #{p>0} per stream and "
+             "capacity are compared with a 10-line automaton.",
+        note="first step at the start iteration (k >= 0), as the repository's own --all_tests RAR test asserts; cartesian non-stationary only",
+        ref="DESIGN.md §4 C16, Appendix A.3"),
+    "C17": dict(
+        technique="hooked-state monitor: candidates from the guarded hook, residuals recomputed in numpy, store/mask diffs around every step and batch draw",
+        level="exploration",
+        text="For every refinement step of the C16-style histories the candidates reported by the guarded hook are ranked "
+             "with squared residuals recomputed in numpy from the analytic field; the points that became active must be "
+             "exactly the top candidates (top space-time pairs for product domains), candidates must lie in the domain, "
+             "only zero-probability slots may change and every previously active point must stay active, also across the "
+             "reshuffles forced by batch draws between steps.",
+        note="hook residuals/indices are not trusted; near-tie steps skipped and counted",
+        ref="DESIGN.md §4 C17"),
     "C18": dict(
         technique="fault enumeration through public extension points (optax transformation with step counter, user equation), return value vs reference loop",
         level="fault_enumeration",
@@ -238,7 +258,7 @@ def main():
     print("not claimed:", [n["property_id"] for n in na])
 
 
-HOOK_COMMITS = []
+HOOK_COMMITS = ["36d9124"]
 
 
 def t_na(p):
